@@ -11,8 +11,8 @@ def check(tree, rep, tier='quick', seed=0):
                        'other handler on the solve call path can swallow them, not_implemented() always raises, an unknown form aborts '
                        'before any state change, the unimplemented list only grows, and line definitions reach inputs and values only by '
                        'subscripting (no default, membership test or try that could hide a signal). The CLI prints the three diagnostics on '
-                       'the failure branch and the success text only on the other.')
-    rep.rule_text = 'obligation = one rule instance (K1 K1b K2 K3 K4 K5 K6 K7 L1) on one construct (function, handler, statement, line definition)'
+                       'the failure branch and the success text only on the other, and names every item of them (K27: the collections reach print() only through element-preserving operations). The lists of waiting lines are changed only by the dependency tracker itself (K24e: names aliasing a tracker list are followed through parameters and the prompt callback).')
+    rep.rule_text = 'obligation = one rule instance (K1 K1b K2 K3 K4 K5 K6 K7 K20 K24a/b/e K27 L1) on one construct (function, handler, statement, line definition)'
     rep.exhaustive = True
     rep.assumptions = ['roles of the solver attributes are inferred from initialisers and handler use (sa/core.py); if a role cannot be inferred uniquely the run is an analysis error',
                        'NOT decided here: that the dependency trackers never lose a registered waiter (algorithmic; see C06), hence the full "no demanded line left without a value" clause']
@@ -20,6 +20,7 @@ def check(tree, rep, tier='quick', seed=0):
     rep.extra['solver_roles'] = core.solver.describe()
     R.k1_success_condition(core, rep)
     R.k1b_cli_reports(core, rep)
+    R.k27_complete_diagnostics(core, rep)
     R.k2_signal_discipline(core, rep, lines_have_try=lines_with_try(tree))
     R.k3_not_implemented_raises(core, rep)
     R.k4_unknown_form_aborts(core, rep)
